@@ -311,11 +311,12 @@ def snap_checks(ctx):
     from persim.landscapes import average_approx, lc_approx, snap_pl
 
     dg = [[[0.0, 2.0]], [[0.0, 2.0], [1.0, 3.0]], [[1.0, 2.0], [0.0, 3.0], [1.0, 3.0]], [[0.0, 1.0], [2.0, 3.0]]]
-    srcs = []
+    srcs, src_specs = [], []
     with contextlib.redirect_stdout(io.StringIO()):
         for d in dg:
             for (s, e, n) in ((0.0, 3.0, 4), (0.0, 3.0, 7), (-1.0, 4.0, 6), (0.0, 4.0, 9)):
                 srcs.append(PersLandscapeApprox(dgms=[np.array(d)], hom_deg=0, start=s, stop=e, num_steps=n))
+                src_specs.append((d, s, e, n))
         hand = [PersLandscapeApprox(values=np.array(v, dtype=float), hom_deg=0, start=0.0, stop=3.0, num_steps=4)
                 for v in ([[0, 1, 2, 0]], [[0, -1, 1, 0], [0, 2, 0, 0]], [[0, 2, 2, 0]])]
     pool = srcs + hand
@@ -384,6 +385,19 @@ def snap_checks(ctx):
             vals_equal(ctx, "lc_approx", lc, coeffs[0] * pa + coeffs[1] * pb, (start, stop, num), "lc_approx", ex)
             av = ctx.call(average_approx, pls, **kw)
             vals_equal(ctx, "average_approx", av, 0.5 * pa + 0.5 * pb, (start, stop, num), "average_approx", ex)
+            if a < len(srcs) and b < len(srcs) and kw in kws[:2]:
+                # the same sources built with compute=False (fresh objects per call: the tool is the first user)
+                def lazy_pair():
+                    with contextlib.redirect_stdout(io.StringIO()):
+                        return [PersLandscapeApprox(dgms=[np.array(d_)], hom_deg=0, start=s_, stop=e_, num_steps=n_, compute=False)
+                                for (d_, s_, e_, n_) in (src_specs[a], src_specs[b])]
+
+                lo_ = ctx.call(snap_pl, lazy_pair(), **kw)
+                for o, r in zip(lo_, refs):
+                    vals_equal(ctx, "snap_pl-lazy", o, r, (start, stop, num), "snap_pl of compute=False sources", ex)
+                vals_equal(ctx, "lc_approx-lazy", ctx.call(lc_approx, lazy_pair(), coeffs, **kw), coeffs[0] * pa + coeffs[1] * pb, (start, stop, num), "lc_approx of compute=False sources", ex)
+                vals_equal(ctx, "average_approx-lazy", ctx.call(average_approx, lazy_pair(), **kw), 0.5 * pa + 0.5 * pb, (start, stop, num), "average_approx of compute=False sources", ex)
+                ctx.nontriv("tools_on_deferred_sources", key=("lazy", a, b))
             ctx.outcome(("snap", np.round(pa + pb, 9).tolist()))
             ctx.valid()
             if [snap(p) for p in pls] != snaps:
